@@ -94,7 +94,7 @@ REPLAY_PLANS = {
                          cov("U2", "U2_ScriptsQ", "F_Op", 120),
                          cov("U4", "U4_MZI", "F_Measure", 160, init="U4_MZIInit", over=MZI_OVER)],
                "thorough": [cov("U4", "U4_Scripts", "F_Op", 3000), cov("U2", "U2_Scripts", "F_Op", 2000),
-                            cov("U4", "U4_MZI", "F_Measure", 4000, init="U4_MZIInit", over=MZI_OVER), cov("U4", "U4_ScriptsBS", "F_Op", 2500, depth=2, over={"PolGates": "None", "CompGates": "BS_Gates", "FockGates": "PS_Gates", "CustomOps2": "None", "CustomOps3": "None", "Kraus1": "None", "Kraus2": "None"})]},
+                            cov("U4", "U4_MZI", "F_Measure", 4000, init="U4_MZIInit", over=MZI_OVER), cov("U4", "U4_ScriptsBS", "F_Op", 2500, depth=2, over={"PolGates": "None", "CompGates": "BS_Gates", "FockGates": "PS_Gates", "CustomOps2": "None", "CustomOps3": "None"})]},
         actions={"opn", "op1", "measure"},
         exhaustive={"quick": [("U4", 3, "Fam_C11")], "thorough": [("U4", 4, "Fam_C11")]},
         ex_init={"U4": "U4_ExInit"},
